@@ -1590,8 +1590,9 @@ impl<'a> Runtime<'a> {
             return Value::Str(ArenaCow::Owned(result));
         }
 
-        if matches!(val, Value::Array(_)) {
-            // Arrays promoted to persistent via pool.
+        if matches!(val, Value::Array(_) | Value::Host(_)) {
+            // Arrays promoted to persistent via pool. Host values (process command
+            // builders and results) live behind a frame-allocated handle as well.
             let promoted = val.promote(&self.pool, self.frame);
             unsafe { self.frame.reset(frame_offset) };
             return promoted;
